@@ -464,6 +464,26 @@ where
     }
 
     async fn finish(&mut self, stream: &mut SearchStream<'a, S, A>) -> LdapResult {
-        stream.finish().await
+        let res = stream.finish().await;
+        // The result of a page with more to follow is not the result of the search, whatever
+        // kept next() from asking for the following page (e.g., an adapter further up the
+        // chain failing at the end of the page).
+        let more_pages = res.ctrls.iter().any(|ctrl| match *ctrl {
+            Control(Some(ControlType::PagedResults), ref raw) => {
+                let pr: controls::PagedResults = raw.parse();
+                !pr.cookie.is_empty()
+            }
+            _ => false,
+        });
+        if more_pages {
+            return LdapResult {
+                rc: 88,
+                matched: String::from(""),
+                text: String::from("user cancelled"),
+                refs: vec![],
+                ctrls: vec![],
+            };
+        }
+        res
     }
 }
